@@ -302,6 +302,10 @@ func NewReporter(opts Options) (Reporter, error) {
 	r.numMetricsCounter = r.AllocateCounter("tally.internal.num-metrics", internalTags)
 	r.numWriteErrorsCounter = r.AllocateCounter("tally.internal.num-write-errors", internalTags)
 	r.numTagCacheCounter = r.AllocateCounter("tally.internal.num-tag-cache", internalTags)
+	// n.b. Set the clock before anything can be reported: the time loop only
+	//      does so once its goroutine is running.
+	r.now.Store(time.Now().UnixNano())
+
 	r.wg.Add(1)
 	go func() {
 		defer r.wg.Done()
